@@ -93,7 +93,8 @@ class StereoCondensedReactionGraph(StereoMolGraph, CondensedReactionGraph):
         s_colors = {a: int(c) for a,c in zip(self.atoms, s_color_array)}
 
         return any(
-                vf2pp_all_isomorphisms(
+                self._preserves_bond_changes(other, mapping)
+                for mapping in vf2pp_all_isomorphisms(
                     self,
                     other,
                     atom_labels=(s_colors, o_colors),
